@@ -378,7 +378,7 @@ func c15TwinGroups(rng *rand.Rand, typ uint16) [][]coal.Rec {
 	perm := rng.Perm(len(c15Syscalls))
 	for i := 0; i < 2+rng.Intn(2); i++ {
 		seq := uint32(100 + i)
-		ms := int64(1600000000000 + i)
+		ms := int64(1600000000000) + int64(i)
 		_, body := coGenBody(rng, coKOther, 0)
 		if typ == coTAVC {
 			_, body = coGenBody(rng, coKAvc, 0)
@@ -479,7 +479,7 @@ func c15ConcPool(rng *rand.Rand) [][]coal.Rec {
 	var pool [][]coal.Rec
 	// many distinct ids: every resolution through a cold cache is a miss
 	for i := 0; i < 48; i++ {
-		pool = append(pool, []coal.Rec{{Typ: tSYSCALL, Seq: uint32(i), Ms: int64(1700000000000 + i),
+		pool = append(pool, []coal.Rec{{Typ: tSYSCALL, Seq: uint32(i), Ms: int64(1700000000000) + int64(i),
 			Body: fmt.Sprintf("arch=c000003e syscall=%s success=yes exit=0 items=0 ppid=1 pid=2 auid=%d uid=%d gid=%d euid=%d ses=1 comm=\"c\" exe=\"/bin/c\"",
 				c15Syscalls[i%len(c15Syscalls)], 30000+i, 40000+i, 50000+i, 60000+i)}})
 	}
